@@ -275,6 +275,28 @@ theorem drainAll_append (a b : List UInt8) :
       rw [ih (a.drop c).length hlen (a.drop c) rfl]
       simp
 
+/-- Bytes consumed without a frame may be dropped before more data arrives: draining gives the same. -/
+theorem drainAll_skip_dead (a b : List UInt8) (c : Nat) (hs : scan a = (c, none)) :
+    drainAll (a ++ b) = drainAll (a.drop c ++ b) := by
+  have hcle : c ≤ a.length := by have := scan_consumed_le a; rw [hs] at this; exact this
+  have hsa := scan_append_none a b c hs
+  rw [drainAll_unfold (a ++ b), hsa, drainAll_unfold (a.drop c ++ b)]
+  have hdrop : ∀ k, (a ++ b).drop (k + c) = (a.drop c ++ b).drop k := by
+    intro k
+    rw [Nat.add_comm, ← List.drop_drop, List.drop_append_of_le_length hcle]
+  rcases hs2 : scan (a.drop c ++ b) with ⟨c', _ | f'⟩
+  · simp only; rw [hdrop]
+  · simp only; rw [hdrop]
+
+/-- A delivered frame may be taken out before more data arrives. -/
+theorem drainAll_take_frame (a b : List UInt8) (c : Nat) (f : Frame) (hs : scan a = (c, some f)) :
+    drainAll (a ++ b) = (f :: (drainAll (a.drop c ++ b)).1, (drainAll (a.drop c ++ b)).2) := by
+  have hp := scan_some_pos a c f hs
+  have hsa := scan_append_some a b c f hs
+  rw [drainAll_unfold (a ++ b), hsa]
+  simp only
+  rw [List.drop_append_of_le_length hp.2]
+
 /-! ### iterator -/
 
 theorem collect_eq_drain (fuel : Nat) (d : List UInt8) (i : Nat) (hi : i ≤ d.length) :
